@@ -2,6 +2,7 @@
 pub mod engines;
 pub mod diff;
 pub mod gen;
+pub mod heapaudit;
 pub mod json;
 pub mod mw;
 pub mod numoracle;
